@@ -142,7 +142,37 @@ func processShape(fd *ast.FuncDecl) string {
 	}
 	var shape []string
 	saved := ""
-	for _, st := range elseBlock.List {
+	// countRecords: exactly one `values[v] = saved` and no other indexed assignment among the statements
+	countRecords := func(nodes []ast.Stmt) bool {
+		records := 0
+		other := false
+		for _, n := range nodes {
+			ast.Inspect(n, func(m ast.Node) bool {
+				if as, ok := m.(*ast.AssignStmt); ok && len(as.Lhs) == 1 {
+					if _, ok := as.Lhs[0].(*ast.IndexExpr); ok && as.Tok == token.ASSIGN {
+						if src(as.Rhs[0]) == saved {
+							records++
+						} else {
+							other = true
+						}
+					}
+				}
+				return true
+			})
+		}
+		return records == 1 && !other
+	}
+	for i, st := range elseBlock.List {
+		// the guard form of the last step: `if <recv>.refIndex <= saved { return }` followed by the recording statements
+		if is, ok := st.(*ast.IfStmt); ok && is.Else == nil && is.Init == nil && saved != "" && len(is.Body.List) == 1 {
+			if _, ret := is.Body.List[0].(*ast.ReturnStmt); ret {
+				if be, ok := is.Cond.(*ast.BinaryExpr); ok && be.Op == token.LEQ && isRefIndex(be.X) && src(be.Y) == saved &&
+					i+1 < len(elseBlock.List) && countRecords(elseBlock.List[i+1:]) {
+					shape = append(shape, "recordIfAdvanced")
+					break
+				}
+			}
+		}
 		switch s := st.(type) {
 		case *ast.AssignStmt:
 			if len(s.Lhs) == 1 && len(s.Rhs) == 1 && isRefIndex(s.Rhs[0]) {
